@@ -138,6 +138,13 @@ CHECKS['C06'] = (
     'Operator commands (hold/release of every instance in bounds incl. not-yet-spawned ones, set/release hold point, trigger) are injected at every main-loop boundary of the explored runs, followed by stop --now --now and restart at every later boundary. A reference held set and hold point built from the statement are compared with the scheduler\'s held set, hold point and every proxy\'s held flag after every transition (including after restart), and no held task may enter preparation.',
     A_NOTE)
 
+CHECKS['C21'] = ('hist', 'fault_enumeration', 'exhaustive fault-position and failure-pattern enumeration on the real DAO pair with an injected sqlite3 connection seam; oracle = full table dumps', '6/C21',
+    'Batches queued through the real WorkflowDatabaseManager.put_* API (28 operations over all tables) are written with a fault injected before every row of every statement and at commit of the private write (error raised, and process killed in a forked child), requiring the reopened private DB to dump exactly as before; every sequence of batches x every pattern of public-DB lock failures, and every run length of consecutive failures around MAX_TRIES with the main loop health check, must end with every public table equal to the private one after a clean flush.',
+    'Bounded to the stated batch menus, sequence lengths (<=3 quick, <=4 thorough) and failure positions; process kill, not power loss; injected lock cross-checked against a real sqlite lock.')
+CHECKS['C22'] = ('hist', 'model_checking', 'explicit-state BFS over operation histories of the real component, replay per transition, independent reference model', '6/C22',
+    'Every history of put/clear/expire/flush/restart up to depth 3 (quick: 50-operation menu; thorough: 106-operation menu at depth 3 plus 20-operation menu at depth 4) is executed on a real BroadcastMgr + WorkflowDatabaseManager + sqlite DB; broadcast state after every operation, the configuration received by tasks at three cycles, and the state after flush + DB reload into fresh managers are compared with a dict-overlay reference written from the statement.',
+    'Decided up to depth/menu only; restart = the calls _load_pool_from_db makes, not a whole scheduler restart (that is C19).')
+
 NOT_BUILT_REASON = (
     'check not built yet in this session (designed in DESIGN.md section 6); '
     'no verdict is claimed')
